@@ -867,3 +867,42 @@ VARIANTS["C03"] += [
       "        bracket_id = kwargs[\"bracket\"]\n        self._task_info[trial_id] = bracket_id\n",
       "        self._task_info[trial_id] = kwargs[\"bracket\"]\n        bracket_id = self._task_info[trial_id]\n"),
 ]
+
+_TAILS_OLD = """                    self.scheduler.on_trial_remove(trial=trial)
+                    done_trials[trial_id] = (trial, status)
+                    self.trials_scheduler_stopped.add(trial_id)
+
+                elif decision == SchedulerDecision.PAUSE:
+                    status = Status.paused
+                    self.trial_backend.pause_trial(trial_id=trial_id, result=result)
+                    self.scheduler.on_trial_remove(trial=trial)
+                    done_trials[trial_id] = (trial, status)
+"""
+for _p in ("C01", "C02", "C13"):
+    VARIANTS[_p] += [
+        E("STOP and PAUSE share one tail (remove, record); the stopped-by-scheduler mark stays with STOP", T, _TAILS_OLD,
+          """                    self.trials_scheduler_stopped.add(trial_id)
+
+                elif decision == SchedulerDecision.PAUSE:
+                    status = Status.paused
+                    self.trial_backend.pause_trial(trial_id=trial_id, result=result)
+
+                if decision != SchedulerDecision.CONTINUE:
+                    self.scheduler.on_trial_remove(trial=trial)
+                    done_trials[trial_id] = (trial, status)
+"""),
+    ]
+for _p in ("C01", "C13"):
+    VARIANTS[_p] += [
+        B("shared tail also marks paused trials as stopped by the scheduler", T, _TAILS_OLD,
+          """
+                elif decision == SchedulerDecision.PAUSE:
+                    status = Status.paused
+                    self.trial_backend.pause_trial(trial_id=trial_id, result=result)
+
+                if decision != SchedulerDecision.CONTINUE:
+                    self.scheduler.on_trial_remove(trial=trial)
+                    done_trials[trial_id] = (trial, status)
+                    self.trials_scheduler_stopped.add(trial_id)
+"""),
+    ]
